@@ -180,6 +180,8 @@ func (s *Stream) close(status int32) error {
 		status = StreamClosed
 	}
 	atomic.StoreInt32(&s.status, status)
+	// 已关闭的流不应再被查找到(管理接口删除、空闲关闭等路径只调用 close)
+	streams.CompareAndDelete(s.path, s)
 	verifhook.Point("media.close.marked", s)
 
 	// 关闭 hls
